@@ -31,7 +31,7 @@ FEATURES = {'long-rr-name', 'eltorito', 'isohybrid', 'duplicate-pvd', 'relocatio
 
 
 def strategy(tier):
-    w = {'mixed': 4, 'growshrink': 2, 'deep': 2, 'links': 3, 'boot': 4, 'exactfill': 2, 'cegap': 1, 'bootlinks': 3, 'ptedge': 1}
+    w = {'mixed': 4, 'growshrink': 2, 'deep': 2, 'links': 3, 'boot': 4, 'exactfill': 2, 'cegap': 1, 'bootlinks': 3, 'ptedge': 1, 'fullcat': 1}
     return st.tuples(gen.any_profile(reopen_ok=True, weights=w), st.none())
 
 
